@@ -311,6 +311,17 @@ class Sym:
                         r = self.case_env[sname]
                         v = v.subs_poly(sname, r if isinstance(r, Poly) else Poly.const(r))
                         hit = True
+                    elif tt is not None and ("reval", sname) not in self._busy_vars:
+                        # an opaque application whose arguments mention a case term (wrapsub(X.unwrap_or(d), y) with
+                        # X.unwrap_or(d) being split): evaluate it again under the current cases
+                        self._busy_vars.add(("reval", sname))
+                        try:
+                            r = self._poly_uncached(strip(tt))
+                        finally:
+                            self._busy_vars.discard(("reval", sname))
+                        if r is not None and not (r == Poly.sym(sname)):
+                            v = v.subs_poly(sname, r)
+                            hit = True
                 if not hit:
                     break
             return v
@@ -834,6 +845,11 @@ class Sym:
                 a, b = self.poly(t[2][0]), self.poly(t[2][1])
                 if a is not None and b is not None:
                     m_w = __import__("re").search(r"impl [ui](\d+|size)>::wrapping_sub", t[1])
+                    if a == b:
+                        return Poly.const(0)                       # x.wrapping_sub(x)
+                    if a.is_const() and b.is_const() and m_w and t[1].find("impl u") >= 0:
+                        w_ = 64 if m_w.group(1) == "size" else int(m_w.group(1))
+                        return Poly.const((int(a.const_value()) - int(b.const_value())) % (1 << w_))
                     self.opsyms["wrapsub(%s,%s)" % (a, b)] = ("WrapSub", a, b, None if not m_w else 64 if m_w.group(1) == "size" else int(m_w.group(1)))
                     return Poly.sym("wrapsub(%s,%s)" % (a, b))
             return Poly.sym(self.name(t))
